@@ -64,7 +64,7 @@ func c06Cases(level int) []SCase {
 				// absent or null value still must not be checked
 				if lm, err := refmodel.New(map[string]string{"s.json": space.Text(l)}, "s.json"); err == nil {
 					if ds := lm.Docs(1); len(ds) > 0 && lm.Valid(ds[0].V) == refmodel.Accept {
-						if dv, ok := ds[0].V.(string); ok {
+						if dv, ok := ds[0].V.(string); ok && isASCII(dv) { // a multi-byte default meets the byte-length finding KF-C06-1 through the back door
 							ld := space.Clone(l)
 							ld["default"] = dv
 							out = append(out, SCase{ID: "C06/default/" + name, Cfg: baseCfg(), Axes: ax("default"),
@@ -99,4 +99,13 @@ func c06Cases(level int) []SCase {
 		return []J{{"type": "string", "minLength": 2, "maxLength": 4}, {"type": "string", "minLength": 5, "maxLength": 8, "pattern": "^[a-c]+$"}, {"type": "string", "pattern": "^Z"}}[i]
 	}, false)...)
 	return out
+}
+
+func isASCII(s string) bool {
+	for i := 0; i < len(s); i++ {
+		if s[i] >= 0x80 {
+			return false
+		}
+	}
+	return true
 }
